@@ -90,6 +90,8 @@ class Stats:
         self.concretizations = 0
         self.checks = 0
         self.reach = 0
+        self.fallbacks = 0
+        self.witness_skipped = 0
 
     def add(self, o):
         for k, v in o.__dict__.items():
@@ -103,7 +105,9 @@ class Stats:
 
 class Explorer:
     def __init__(self, max_paths=200000, query_timeout_ms=30000, max_decisions=4000, want_witness=False,
-                 deadline=None, shard=None):
+                 deadline=None, shard=None, fast_ms=None, ack_first=False):
+        self.ack_first = ack_first
+        self.fast_ms = fast_ms        # stage-1 time-out of a query before the Ackermannized fresh-solver fallback
         self.shard = shard            # (index, count, depth): explore only subtrees whose first `depth` decisions hash to index
         self.max_paths = max_paths
         self.query_timeout_ms = query_timeout_ms
@@ -118,22 +122,78 @@ class Explorer:
         self.notes = []
 
     # ---------------------------------------------------------------- solver
-    def _check(self, *extra):
+    def _check(self, *extra, hard=False):
+        """decide pc & extra.  Stage 1: the path's incremental solver (short time-out when fast_ms is set).
+        Stage 2 (only after `unknown`): a fresh solver on the Ackermannized formula -- every application of an
+        uninterpreted function replaced by a fresh constant plus the pairwise congruence constraints, which turns
+        QF_UFNRA into QF_NRA -- first z3's default strategy, then nlsat.  The verdict of whichever stage decides is
+        used; a model found in stage 2 is kept in self.last_model (untrusted for terms that mention the functions)."""
         t = time.time()
         self.stats.queries += 1
-        r = self.solver.check(*extra)
+        self.last_model = None
+        self.last_model_trusted = True
+        if self.ack_first and hard:
+            # assertion queries of UF + non-linear harnesses: the Ackermannized fresh solver first
+            r = self._fallback(extra, retry_main=False)
+            if r == z3.unknown:
+                r = self.solver.check(*extra)
+        else:
+            if self.fast_ms:
+                self.solver.set("timeout", self.fast_ms)
+            r = self.solver.check(*extra)
+            if self.fast_ms:
+                self.solver.set("timeout", self.query_timeout_ms)
+            if r == z3.unknown:
+                r = self._fallback(extra)
         self.stats.solver_time += time.time() - t
         if r == z3.unknown:
             self.stats.unknown += 1
             self.path_unknown = True
         return r
 
+    def _fallback(self, extra, retry_main=True):
+        fs = list(self.solver.assertions()) + list(extra)
+        try:
+            g = ackermannize(fs)
+        except Exception:
+            g = fs
+        self.stats.fallbacks = getattr(self.stats, "fallbacks", 0) + 1
+        for mk in (lambda: z3.Solver(), lambda: z3.Tactic("qfnra-nlsat").solver()):
+            s = mk()
+            s.set("timeout", self.query_timeout_ms)
+            s.add(g)
+            try:
+                r = s.check()
+            except z3.Z3Exception:
+                r = z3.unknown
+            if r == z3.sat:
+                self.last_model = s.model()
+                self.last_model_trusted = g is fs
+                return r
+            if r == z3.unsat:
+                return r
+        if self.fast_ms and retry_main:
+            # last resort: the incremental solver again with the full time-out
+            r = self.solver.check(*extra)
+            if r == z3.sat:
+                self.last_model = self.solver.model()
+                self.last_model_trusted = True
+            return r
+        return z3.unknown
+
+    def lm(self):
+        """model of the last sat query (from whichever stage decided it)"""
+        if self.last_model is None:
+            self.last_model = self.solver.model()
+        return self.last_model
+
     def _model(self):
         if self.model is None:
             r = self._check()
             if r != z3.sat:
                 raise PathAbort()
-            self.model = self.solver.model()
+            self.model = self.lm()
+            self.model_trusted = self.last_model_trusted
         return self.model
 
     def add(self, c):
@@ -168,7 +228,12 @@ class Explorer:
             raise BoundHit("max_decisions")
         self.stats.decisions += 1
         m = self._model()
-        mv = z3.is_true(m.eval(cond, model_completion=True))
+        if self.model_trusted:
+            mv = z3.is_true(m.eval(cond, model_completion=True))
+        else:
+            mv = self._check(cond) == z3.sat
+            if not mv and self._check(z3.Not(cond)) != z3.sat:
+                raise PathAbort()
         other = z3.Not(cond) if mv else cond
         r = self._check(other)
         if r == z3.sat:
@@ -206,6 +271,11 @@ class Explorer:
         if len(excluded) > 64:
             raise BoundHit("value split over more than 64 values (%s)" % what)
         m = self._model()
+        if not self.model_trusted:
+            if self.solver.check() != z3.sat:
+                raise BoundHit("no trusted model for a value split (%s)" % what)
+            m = self.model = self.solver.model()
+            self.model_trusted = True
         v = m.eval(e, model_completion=True).as_long()
         # is there any other value?
         r = self._check(e != v)
@@ -225,7 +295,7 @@ class Explorer:
         if z3.is_true(cond):
             return
         self.solver.add(cond)
-        if self.model is not None and z3.is_true(self.model.eval(cond, model_completion=True)):
+        if self.model is not None and self.model_trusted and z3.is_true(self.model.eval(cond, model_completion=True)):
             return
         self.model = None
         if self._check() != z3.sat:
@@ -259,18 +329,18 @@ class Explorer:
             regions.append((fid, region))
         # outside every known region
         outside = [neg] + [z3.Not(r) for _, r in regions]
-        r = self._check(*outside)
+        r = self._check(*outside, hard=True)
         ok = True
         if r == z3.sat:
-            m = self.solver.model()
+            m = self.lm()
             self.outcomes.append(Outcome("violation", name, self.eval_inputs(m), detail, list(self.trace)))
             ok = False
         elif r == z3.unknown:
             self.notes.append("unknown on check %s" % name)
         for fid, region in regions:
-            r = self._check(neg, region)
+            r = self._check(neg, region, hard=True)
             if r == z3.sat:
-                m = self.solver.model()
+                m = self.lm()
                 self.outcomes.append(Outcome("violation", name, self.eval_inputs(m), detail, list(self.trace), known=fid))
                 ok = False
         if not ok:
@@ -294,7 +364,7 @@ class Explorer:
         r = self._check()
         if r != z3.sat:
             return
-        m = self.solver.model()
+        m = self.lm()
         name = "%s: %s" % (type(exc).__name__, str(exc)[:200])
         fid = None
         inputs = self.eval_inputs(m)
@@ -327,6 +397,9 @@ class Explorer:
                 self.solver = z3.Solver()
                 self.solver.set("timeout", self.query_timeout_ms)
                 self.model = None
+                self.model_trusted = True
+                self.last_model = None
+                self.last_model_trusted = True
                 self.inputs = {}
                 self.path_unknown = False
                 self.fresh_counter = 0
@@ -342,8 +415,13 @@ class Explorer:
                     self.stats.ok += 1
                     if self.want_witness and out is not None:
                         from .values import concretize_struct
-                        self.witnesses.append({"inputs": self.eval_inputs(m),
-                                               "outputs": concretize_struct(out, m)})
+                        try:
+                            self.witnesses.append({"inputs": self.eval_inputs(m),
+                                                   "outputs": concretize_struct(out, m)})
+                        except (ArithmeticError, ValueError):
+                            # the model cannot be evaluated numerically (e.g. a value of an uninterpreted function
+                            # the true function does not take): no witness for this path
+                            self.stats.witness_skipped = getattr(self.stats, "witness_skipped", 0) + 1
                     if len(self.samples) < 3:
                         self.samples.append(self.eval_inputs(m))
                 except ShardSkip:
@@ -362,6 +440,38 @@ class Explorer:
 
 
 # ------------------------------------------------------------------ helpers
+def ackermannize(fs):
+    """replace every application of an uninterpreted function by a fresh constant and add the pairwise
+    congruence constraints (equal arguments -> equal values).  Equisatisfiable with the input."""
+    apps = {}
+    seen = set()
+    stack = list(fs)
+    while stack:
+        u = stack.pop()
+        if u.get_id() in seen:
+            continue
+        seen.add(u.get_id())
+        if z3.is_app(u):
+            if u.decl().kind() == z3.Z3_OP_UNINTERPRETED and u.num_args() > 0:
+                apps[u.get_id()] = u
+            stack.extend(u.children())
+    if not apps:
+        return fs
+    lst = list(apps.values())
+    pairs = [(a, z3.Const("ack!%s!%d" % (a.decl().name(), i), a.sort())) for i, a in enumerate(lst)]
+
+    def sub(t):
+        return z3.substitute(t, *pairs)
+    out = [sub(f) for f in fs]
+    for i in range(len(lst)):
+        for j in range(i + 1, len(lst)):
+            a, b = lst[i], lst[j]
+            if a.decl().eq(b.decl()):
+                eqs = [sub(x) == sub(y) for x, y in zip(a.children(), b.children())]
+                out.append(z3.Implies(z3.And(*eqs), pairs[i][1] == pairs[j][1]))
+    return out
+
+
 def assume(c):
     EX.assume(c)
 
